@@ -786,7 +786,8 @@ def run(rep, tier):
     rep.floor("capacity-vs-length room tests", n_aud[5], 2)
     rep.floor("bn_init / bn_assign_init destinations classified (caller's object vs own temporary)", n_ck, 60)
     rep.floor("Legendre status uses", n_aud[6], 2)
-    rep.floor("Euclid inverses (non-default variants)", c01_audit.no_inverse_exit_rule(rep, u0), 2)
+    rep.floor("Euclid inverses (non-default variants)", c01_audit.no_inverse_exit_rule(rep, u0), 3)
+    c01_audit.reduce_zero_modulus_rule(rep, u0)
     rep.floor("top-digit reads of functions that accept zero operands", locals().get("n_top", 0), 3)
     c01_audit.halving_odd_modulus_rule(rep, u0)
     rep.floor("results computed in a temporary", locals().get("n_cb", 0), 1)
